@@ -62,6 +62,12 @@ def instances(tier):
         # interleavings inside one instant: the script step is applied j loop turns after a connection was handed to the
         # client (connect completing, subscribers being notified, held messages being flushed, read task starting)
         out.append({"kind": "script", "gen": g, "depth": 2 if tier == "quick" else 3, "alphabet": "turns", "turns": 10})
+        # a fixed story with free instants: the flush of a held command fails inside the connection attempt (which leaves a delayed
+        # retry behind), the next connection is lost later, and closing a transport takes half a second - timers that fall due
+        # and attempts that complete inside the close window. (No request is sent from the connected notification here.)
+        for last in ("reset", "eof"):
+            story = ["werr"] + ["nop"] * 7 + [last]
+            out.append({"kind": "script", "gen": g, "depth": 16, "alphabet": "wfault", "fixed_inject": story, "close_latency": 0.5, "no_greeting": True})
         # a long outage: many refusals in a row; the time to recover once the console accepts again does not grow with them
         out.append({"kind": "outage", "gen": g, "refusals": 30 if tier == "quick" else 120})
         # a console that is slow to accept (up to 20 s): the client waits for it; one connection, none abandoned open
@@ -197,19 +203,31 @@ def run(ctx, p):
     lat = ctx.real("lat", 0, 3, lo_strict=True)
     state = {"step": 0, "trace": [], "raise_next": False, "conn_raise_next": False}
 
+    fixed = list(p["fixed_inject"]) if p.get("fixed_inject") else None
+    lat_later = ctx.real("lat_later", 0, 1, lo_strict=True) if fixed is not None else lat     # later connections have a latency of their own
+
     def choose(alphabet):
+        if fixed is not None:
+            # a fixed story (no branching on actions; the instants of the send and the connection latencies stay free)
+            a = "accept" if alphabet is CONNECT_ALPHABET else (fixed.pop(0) if fixed else "nop")
+            state["step"] += 1
+            state["trace"].append(a)
+            return a
         i = ctx.choice(f"s{state['step']}_{len(state['trace'])}", len(alphabet))
         state["step"] += 1
         state["trace"].append(alphabet[i])
         return alphabet[i]
 
     with Rig(ctx, g, stub_reader=False) as rig:
+        if p.get("close_latency"):
+            rig.net.close_latency = p["close_latency"]
+
         def on_connect(net, n):
             if state["step"] < depth:
                 if choose(CONNECT_ALPHABET) == "refuse":
                     return ("refuse",)
-                return ("accept", lat)
-            return ("accept", lat)      # the network behaves again: accepts, with the same (symbolic) latency
+                return ("accept", lat if n == 0 else lat_later)
+            return ("accept", lat if n == 0 else lat_later)      # the network behaves again: accepts, with the same (symbolic) latency
 
         fail_drain = {"on": False}
 
@@ -241,7 +259,8 @@ def run(ctx, p):
                 except (S.QueueOverflowError, S.NotOpenError):
                     pass
 
-        rig.sock.subscribe_on_connection_changed(greeting_subscriber)
+        if not p.get("no_greeting"):
+            rig.sock.subscribe_on_connection_changed(greeting_subscriber)
 
         async def raising_conn_subscriber(*, connected):
             if state["conn_raise_next"]:
@@ -345,9 +364,14 @@ def run(ctx, p):
         probe_cmd = bytes(framing.frame(g.n, 0x80, 0xB0, 0, cmd_entry[2], cmd_entry[3](6))[framing.header_len(g.n):-2])
         ctx.check(probe_cmd in written and sum(len(x.writes) for x in rig.net.conns) > w_before, "heals.transmitting", detail=detail)
         # ---- monitors ------------------------------------------------------------------
-        ctx.check(rig.net.max_open <= 1, "single_connection", detail=dict(detail, max_open=rig.net.max_open))
+        known = []
+        if p.get("fixed_inject") and p.get("close_latency"):
+            # KF-C07-4 (open): a send inside the close window of the connection lost at 3.1 s starts a second, overlapping tear-down
+            t_loss = 0.3 + 0.7 * 4
+            known = [("KF-C07-4", sym_and(tsend >= t_loss, tsend <= t_loss + p["close_latency"]))]
+        ctx.check(rig.net.max_open <= 1, "single_connection", known=known, detail=dict(detail, max_open=rig.net.max_open))
         open_now = [x.index for x in rig.net.conns if not x.client_closed]
-        ctx.check(len(open_now) <= 1 and (not open_now or open_now[0] == rig.net.conns[-1].index), "abandoned_closed",
+        ctx.check(len(open_now) <= 1 and (not open_now or open_now[0] == rig.net.conns[-1].index), "abandoned_closed", known=known,
                   detail=dict(detail, still_open=open_now))
         ctx.check(not rig.task_failures(), "no_task_crash",
                   detail=dict(detail, errors=[str(e.get("exception")) for e in rig.task_failures()][:3]))
